@@ -239,6 +239,10 @@ func visibleNames(ctx context.Context, m namespace.Manager) ([]string, error) {
 }
 
 func runC19(env *Env, rc *RunCtx) {
+	if rc.Mode == "interleave" {
+		runC19Interleave(env, rc)
+		return
+	}
 	t := rc.CaseTape
 	kind := rc.Mode // "opl-file", "opl-dir", "legacy-dir", "legacy-file"
 	if kind == "" {
